@@ -73,6 +73,7 @@ public:
   RCPBasic get(unsigned i, unsigned j) const;
   void set(unsigned i, unsigned j, const RCPBasic &e);
   CSRMatrix transpose(bool conjugate = false) const;
+  void conjugate(CSRMatrix &result) const;
   static void csr_sum_duplicates(uvec &p_, uvec &j_, vec_basic &x_, unsigned row_);
   static void csr_sort_indices(uvec &p_, uvec &j_, vec_basic &x_, unsigned row_);
   static bool csr_has_sorted_indices(const uvec &p_, const uvec &j_, unsigned row_);
